@@ -634,6 +634,19 @@ theorem poly_eq_reads_equal (p q : ALV.C07.MPoly (Coef K)) (h : polyEqTV p q = t
     ALV.C07.toLaurent (snap n p) = ALV.C07.toLaurent (snap n q) :=
   polyEqTV_at h hp hq n
 
+/-- **C06.11h'** (`poly_div_elementwise`): `Poly.__truediv__` on Stream coefficients — by a one-term
+`Poly` `w·x^d` (`w` a number or a Stream): the quotient read at time `n` is the dividend times
+`(1/w[n])·x^(-d)`, every coefficient divided by the `n`-th item of `w`; by a Stream / number `c`
+(`thub(other, len(self))`): the dividend times `1/c[n]`.  (The code shares ONE Stream object among all
+quotient coefficients in the first case: defect D22, the tie reports it as a known finding.) -/
+theorem poly_div_elementwise (p q : ALV.C07.MPoly (Coef K)) (n : Nat) (hp : polyDefined n p)
+    (kp : (ALV.C07.keys p).Nodup) :
+    (∀ (d : Int) (w : Coef K), ALV.C07.divPoly p [(d, w)] = .ok q → w.defined n →
+        ALV.C07.toLaurent (snap n q) = ALV.C07.toLaurent (snap n p) * (C (1 / w.val n) * T (-d)))
+    ∧ (∀ c : Coef K, ALV.C07.divScalar p c = .ok q → c.defined n →
+        ALV.C07.toLaurent (snap n q) = ALV.C07.toLaurent (snap n p) * C (1 / c.val n)) :=
+  ⟨fun _ _ e hw => divPoly_at e n hp hw kp, fun _ e hc => divScalar_at e n hp hc kp⟩
+
 /-- **C06.11i** (`expr_elementwise`, the algebra clause for EVERY expression, any depth): whatever
 Python builds from `z ** -k`, numbers and Streams with `+ - * /` and unary minus — dispatch
 filter∘filter / filter∘other / other∘filter (`__rbinary__`) / Stream∘Stream, `Poly` arithmetic with
@@ -863,6 +876,9 @@ example : (match evalTree (ALV.C06.Tree.div (.add (.z 1) (.c (1 : Rat))) (.add (
   decide +kernel
 example := fun v e => expr_elementwise 2 (ALV.C06.Tree.mul (.add (.mul (.s [(1 : ℚ), 2, 3]) (.z 1)) (.c 1))
       (.sub (.mul (.z 1) (.s [2, 2, 2])) (.c 3))) v e (by simp [ALV.C06.Tree.definedAt])
+/-- D22's witness in the model: `Poly({0: 1, 1: 2}) / Poly({0: Stream(1,2,3)})` is `1/s[n] + (2/s[n]) x` -/
+example : ALV.C07.divPoly [((0 : Int), Coef.const (1 : Rat)), (1, Coef.const 2)] [(0, Coef.strm [1, 2, 3])]
+    = .ok [(0, Coef.strm [1, 1/2, 1/3]), (1, Coef.strm [2, 1, 2/3])] := by decide +kernel
 /-- constant streams: `Stream(2,2,2) * z^-1 + 1` against `2 * z^-1 + 1` -/
 example : ALV.C06.Tree.constUpTo 3 (ALV.C06.Tree.add (.mul (.s [(2 : ℚ), 2, 2]) (.z 1)) (.c 1)) := by
   refine ⟨⟨⟨by simp, ?_⟩, trivial⟩, trivial⟩
